@@ -126,14 +126,23 @@ def make_cases(ctx, spec, names, full):
 def run_spec(ctx, rep, spec, cases, model, limit=None):
     """runs all cases of one plotfile; returns nothing (reports through rep)"""
     from amr_kitchen import PlotfileCooker
-    path = ctx.newdir("c01_")
+    path = ctx.newdir("c01_") if spec.get("path_form") != "long" else ctx.long_dir("c01_")
     truth = plotgen.materialize(spec, path)
+    if spec.get("path_form") == "symlink":
+        path = ctx.via_symlink(path); rep.count("path-through-symlink-and-dotdot")
+    if spec.get("path_form") == "long": rep.count("path-longer-than-160-characters")
     names = dedup_names(spec["fields"])
     nf = len(spec["fields"])
     nlev = len(spec["levels"])
     lim = nlev - 1 if limit is None else limit
-    with quiet():
-        pck = PlotfileCooker(path, limit_level=limit)
+    try:
+        with quiet():
+            pck = PlotfileCooker(path, limit_level=limit)
+    except Exception as e:
+        rep.case({"s": spec, "open": 1}, nontrivial=True)
+        rep.fail(f"opening a well-formed plotfile raised {type(e).__name__}: {e}",
+                 {"spec": spec, "fsel": {"t": "int", "v": 0}, "level": 0, "bsel": {"t": "int", "v": 0}, "limit": limit})
+        return
     feats = plotgen.describe(spec)
     # model requests
     reqs, req_index = [], {}
@@ -289,6 +298,13 @@ def run(ctx, rep, model=True):
     n = 14 if ctx.quick else 80
     with pools.controlled():
         for i, spec in enumerate(specs_for(ctx, n)):
+            if i % 5 == 2: spec["path_form"] = "symlink"
+            if i % 5 == 4: spec["path_form"] = "long"
+            if i % 7 == 1 and len(spec["fields"]) >= 3:
+                # fields whose names are the decimal strings of OTHER valid positions
+                nf_ = len(spec["fields"])
+                spec["fields"] = ["temp"] + [str(k) for k in range(nf_ - 1, 0, -1)]
+                rep.count("field-names-that-are-position-strings")
             names = dedup_names(spec["fields"])
             full = len(spec["fields"]) <= (3 if ctx.quick else 5)
             cases = make_cases(ctx, spec, names, full)
